@@ -9,8 +9,8 @@ import gsrouter_lib as g  # noqa: E402
 META = {
     "level": "model_checking",
     "technique": "TLA+ transcription of BackoffStorage (slot ring + expiry instants, GsBackoff.tla) model-checked for NeverShortened and eventual forgetting (+ 2 canaries); the real BackoffStorage under the verif clock and the real Behaviour (GRAFT/PRUNE histories, logical time) validated by TLC against property-level trace specs",
-    "text": "TLC exhaustively checks the transcribed ring-of-heartbeat-slots storage (durations longer than the ring, heartbeats at arbitrary times, bounded time) for: from an update at u with duration d until u+d the pair is backed off and its backoff time is in the future; an entry expired past the slack is eventually evicted (liveness under fair heartbeats); canaries (eviction without the instant test; unconditional overwrite) are rejected. Conformance: (1) the real BackoffStorage, clock controlled by the verif shim in backoff.rs, under all update/heartbeat/tick sequences up to length 4-6 over a 5-letter alphabet plus seeded random schedules over 1-2 topics x 1-2 peers with durations up to twice the ring; TLC checks NeverShortened and bounded forgetting on every step. (2) the real Behaviour under GRAFT/PRUNE/subscribe/heartbeat/tick histories: whoever was sent or has sent a PRUNE with a duration is reported as backed off and is not added to the mesh until the duration has elapsed.",
-    "note": "Forgetting is checked with the bound 2*ring heartbeats after expiry+slack (any faster implementation passes). The GRAFT penalty is observed only through its effect on the score sign (C28 step rule), not asserted separately.",
+    "text": "TLC exhaustively checks the transcribed ring-of-heartbeat-slots storage (durations longer than the ring, heartbeats at arbitrary times, bounded time) for: from an update at u with duration d until u+d the pair is backed off and its backoff time is in the future; an entry expired past the slack is eventually evicted (liveness under fair heartbeats); canaries (eviction without the instant test; unconditional overwrite) are rejected. Conformance: (1) the real BackoffStorage, clock controlled by the verif shim in backoff.rs, under all update/heartbeat/tick sequences up to length 4-6 over a 5-letter alphabet plus seeded random schedules over 1-2 topics x 1-2 peers with durations up to twice the ring; TLC checks NeverShortened and bounded forgetting on every step. (2) the real Behaviour under GRAFT/PRUNE/subscribe/heartbeat/tick histories: whoever was sent or has sent a PRUNE with a duration is reported as backed off, is not added to the mesh until the duration has elapsed, and a GRAFT it sends meanwhile (for a topic it could otherwise be grafted into) lowers its score.",
+    "note": "Forgetting is checked with the bound 2*ring heartbeats after expiry+slack (any faster implementation passes). The GRAFT penalty is observed as a strict decrease of Behaviour::peer_score.",
     "design_ref": "6/C32",
 }
 
